@@ -53,6 +53,11 @@ pub struct Actor {
     /// a coroutine this actor has resumed *on its own stack* (cqueue bottom halves): while it runs,
     /// the actor's progress is that coroutine's progress
     pub hosting: Option<usize>,
+    /// a passive actor (a runtime thread) that has been released from a point and has not yet come to rest
+    /// (next point, back in its idle wait, or held up by a coroutine it resumed on its own stack)
+    pub passive_busy: bool,
+    /// OS thread of a passive actor (as of its last point)
+    pub tid: usize,
     /// a *kernel actor*: the kernel side (EventSource::subscribe, running on some worker after the
     /// stack switch) of coroutine actor `kernel_of`; active between co.switched and co.subscribed
     pub kernel_of: Option<usize>,
@@ -106,6 +111,15 @@ pub struct Inner {
     /// add_gen the latest timer that was due at once (deadline <= now when added) will have
     pub due_at_once: u64,
     pub timer_tid: usize,
+    /// something outside the harness' view is under way (a helper thread that will write to a socket in 2 ms):
+    /// no logical deadlock is declared meanwhile
+    pub ext_pending: usize,
+    /// the virtual sleep of the timer thread: the clock value it last read, when it wants to wake up, whether it
+    /// has been unparked meanwhile, whether it sleeps
+    pub timer_last_now: u64,
+    pub timer_wake_at: u64,
+    pub timer_token: bool,
+    pub timer_sleeping: bool,
     /// workers chosen by `place` for a coroutine that has not been resumed there yet (vid 0 = the note is still to come)
     pub placed: Vec<(usize, usize)>,
     pub add_gen: u64,
@@ -143,9 +157,16 @@ thread_local! {
     static TID: Cell<usize> = const { Cell::new(0) };
     static ACTOR: Cell<usize> = const { Cell::new(usize::MAX) };
     static IS_TIMER: Cell<bool> = const { Cell::new(false) };
+    static PASSIVE: Cell<usize> = const { Cell::new(usize::MAX) };
 }
 
 /// is the calling OS thread a thread actor?
+static GLOBAL: std::sync::OnceLock<&'static Ctrl> = std::sync::OnceLock::new();
+/// the controller, for helpers that are not handed one
+pub fn global() -> Option<&'static Ctrl> {
+    GLOBAL.get().copied()
+}
+
 pub fn is_actor_thread() -> bool {
     ACTOR.with(|c| c.get()) != usize::MAX
 }
@@ -197,6 +218,11 @@ impl Ctrl {
                 dbg_last_idle: (0, 0),
                 due_at_once: 0,
                 timer_tid: 0,
+                ext_pending: 0,
+                timer_last_now: 0,
+                timer_wake_at: 0,
+                timer_token: false,
+                timer_sleeping: false,
                 placed: vec![],
                 add_gen: 0,
                 read_add_gen: 0,
@@ -211,6 +237,7 @@ impl Ctrl {
             gate: AtomicBool::new(false),
         }));
         may::verif::install(c);
+        let _ = GLOBAL.set(c);
         c
     }
 
@@ -240,6 +267,8 @@ impl Ctrl {
                 steps: 0,
                 external: *external,
                 hosting: None,
+                passive_busy: false,
+                tid: 0,
                 kernel_of: None,
                 kactive: 0,
                 fin_on_done: false,
@@ -254,6 +283,8 @@ impl Ctrl {
         g.epoch += 1;
         g.kthread.clear();
         g.timers.clear();
+        g.ext_pending = 0;
+        g.timer_token = true; // let the timer thread look at the world of the new execution
         g.placed.clear();
         g.timer_host_vid = None;
         g.trace.clear();
@@ -351,6 +382,12 @@ impl Ctrl {
 
     // ---- driver side -------------------------------------------------------------------
 
+    /// the timer thread is in its (virtual) timed sleep and has no reason to wake up: its wake-up time is ahead and
+    /// nobody has unparked it
+    fn timer_asleep(x: &Inner) -> bool {
+        x.timer_sleeping && !x.timer_token && x.vclock.map_or(false, |t| t < x.timer_wake_at)
+    }
+
     /// the timer thread cannot look at the clock now: it is stopped at one of its own points, or it runs a
     /// coroutine it has resumed (or the kernel side of that coroutine's next yield) which is stopped at a point
     fn timer_held(x: &Inner) -> bool {
@@ -372,6 +409,16 @@ impl Ctrl {
         let a = &g.actors[i];
         if a.hosting.is_some() {
             return true;
+        }
+        if a.passive_busy {
+            // its thread may be held up by the kernel side of a yield that runs on it and is stopped at a point
+            // (the coroutine it resumed has yielded again: that subscribe runs on this thread)
+            if let Some((k, _)) = g.kthread.get(&a.tid) {
+                if g.actors[*k].st == ASt::AtPoint {
+                    return true;
+                }
+            }
+            return false;
         }
         if a.kernel_of.is_some() {
             // buried under a nested activation on its own thread (fast_wake_up resumed the coroutine,
@@ -410,7 +457,7 @@ impl Ctrl {
             // a timer that was added (possibly due at once: a zero time-out) and that the timer thread has not
             // looked at yet: it may fire without the clock moving
             if all && g.vclock.is_some() {
-                let seen = g.done_add_gen >= g.add_gen || (g.timer_parked && g.park_add_gen == g.add_gen);
+                let seen = g.done_add_gen >= g.add_gen || (g.timer_parked && g.park_add_gen == g.add_gen) || Self::timer_asleep(&g);
                 if !seen && g.due_at_once > g.done_add_gen && !Self::timer_held(&g) && start.elapsed() < Duration::from_millis(200) {
                     all = false;
                 }
@@ -464,9 +511,17 @@ impl Ctrl {
             && g.co.iter().any(|(vid, st)| !g.by_vid.contains_key(vid) && matches!(st, CoSt::Queued | CoSt::Running | CoSt::Switching(_)));
         to.timed_out()
             && g.change == ch
+            && g.ext_pending == 0
             && !orphan
             && (0..n).all(|i| Self::settled_one(&g, i))
             && !g.actors.iter().any(|a| a.st == ASt::AtPoint)
+    }
+
+    pub fn ext_pending(&self, delta: isize) {
+        let mut g = self.lock();
+        g.ext_pending = (g.ext_pending as isize + delta).max(0) as usize;
+        g.change += 1;
+        self.cv.notify_all();
     }
 
     /// declare actor `k` to be the kernel side of coroutine actor `of`
@@ -481,7 +536,7 @@ impl Ctrl {
         // (a kernel slot that has resumed the coroutine on its own stack waits for it, not the other way round)
         // nor is a coroutine held back that somebody else (e.g. a poller running its bottom half) has resumed on
         // their own stack: that is real concurrency with the kernel side
-        if vid != 0 && g.actors.iter().any(|x| x.kernel_of.is_none() && x.hosting == Some(vid)) {
+        if vid != 0 && g.actors.iter().any(|x| x.kernel_of != Some(i) && x.hosting == Some(vid)) {
             return false;
         }
         g.actors.iter().enumerate().any(|(j, x)| j != i && x.kernel_of == Some(i) && (x.kactive > 0 || x.st == ASt::AtPoint) && !(vid != 0 && x.hosting == Some(vid)))
@@ -575,7 +630,7 @@ impl Ctrl {
             .cv
             .wait_timeout_while(g, Duration::from_millis(max_ms), |x| {
                 let parked_quiet = x.timer_parked && x.park_add_gen == x.add_gen;
-                let polled_quiet = x.timer_done_gen >= x.tick_gen && x.done_add_gen >= x.add_gen;
+                let polled_quiet = (x.timer_done_gen >= x.tick_gen && x.done_add_gen >= x.add_gen) || Self::timer_asleep(x);
                 // the timer thread may also be stopped at one of its own points (it is an actor then) or held up
                 let at_point = Self::timer_held(x);
                 !parked_quiet && !polled_quiet && !at_point && x.fired == fired_before
@@ -593,7 +648,7 @@ impl Ctrl {
             .cv
             .wait_timeout_while(g, Duration::from_millis(max_ms), |x| {
                 let parked_quiet = x.timer_parked && x.park_add_gen == x.add_gen;
-                let polled_quiet = x.timer_done_gen >= x.tick_gen && x.done_add_gen >= x.add_gen;
+                let polled_quiet = (x.timer_done_gen >= x.tick_gen && x.done_add_gen >= x.add_gen) || Self::timer_asleep(x);
                 !parked_quiet && !polled_quiet && !Self::timer_held(x)
             })
             .unwrap_or_else(|p| p.into_inner());
@@ -662,6 +717,12 @@ impl may::verif::Controller for Ctrl {
         }
 
         g.actors[me].st = ASt::AtPoint;
+        g.actors[me].passive_busy = false;
+        let is_passive = g.actors[me].kernel_of == Some(me);
+        if is_passive {
+            PASSIVE.with(|c| c.set(me));
+            g.actors[me].tid = my_tid();
+        }
         g.actors[me].at = Some(PointInfo { site, obj, a, b });
         g.actors[me].worker = may::verif::worker_id();
         g.change += 1;
@@ -678,6 +739,9 @@ impl may::verif::Controller for Ctrl {
             if x.st == ASt::AtPoint {
                 x.st = ASt::Running;
                 x.at = None;
+            }
+            if is_passive {
+                x.passive_busy = true;
             }
         }
     }
@@ -719,6 +783,12 @@ impl may::verif::Controller for Ctrl {
                 if let Some(h) = ctx {
                     if g.gating {
                         g.actors[h].hosting = Some(a);
+                    }
+                } else {
+                    // ... or by a passive actor (timer thread, event loop) that is in the middle of its step
+                    let p = PASSIVE.with(|c| c.get());
+                    if g.gating && p != usize::MAX && p < g.actors.len() && g.actors[p].passive_busy && may::verif::cur_vid() == 0 {
+                        g.actors[p].hosting = Some(a);
                     }
                 }
             }
@@ -771,6 +841,11 @@ impl may::verif::Controller for Ctrl {
                     if g.actors[h].hosting == Some(a) {
                         g.actors[h].hosting = None;
                     }
+                } else {
+                    let p = PASSIVE.with(|c| c.get());
+                    if p != usize::MAX && p < g.actors.len() && g.actors[p].hosting == Some(a) {
+                        g.actors[p].hosting = None;
+                    }
                 }
             }
             "co.done" => {
@@ -798,6 +873,27 @@ impl may::verif::Controller for Ctrl {
                     }
                 }
             }
+            "sel.idle" => {
+                // a worker is back in epoll_wait: if it is a passive actor, its step is complete
+                let p = PASSIVE.with(|c| c.get());
+                if p != usize::MAX && p < g.actors.len() && g.actors[p].passive_busy {
+                    g.actors[p].passive_busy = false;
+                    g.change += 1;
+                }
+            }
+            "timer.wakeup" => {
+                g.timer_token = true;
+                g.change += 1;
+            }
+            "timer.poll" => {
+                // outside an execution the thread simply polls; inside it wakes when its time has come or on an unpark
+                let due = g.vclock.map_or(true, |t| t >= g.timer_wake_at);
+                if !g.gating || g.timer_token || due {
+                    g.timer_token = false;
+                    g.timer_sleeping = false;
+                    ret = 1;
+                }
+            }
             "timer.thread" => {
                 IS_TIMER.with(|c| c.set(true));
                 g.timer_tid = my_tid();
@@ -813,6 +909,11 @@ impl may::verif::Controller for Ctrl {
                 g.timer_done_gen = g.timer_read_gen;
                 g.done_add_gen = g.read_add_gen;
                 g.timer_host_vid = None;
+                if let Some(t) = g.timer_actor {
+                    g.actors[t].passive_busy = false;
+                }
+                g.timer_wake_at = g.timer_last_now + a as u64;
+                g.timer_sleeping = true;
                 ret = g.vclock.is_some() as usize;
             }
             "timer.park" => {
@@ -821,6 +922,9 @@ impl may::verif::Controller for Ctrl {
                 g.park_add_gen = g.read_add_gen;
                 g.timer_parked = true;
                 g.timer_host_vid = None;
+                if let Some(t) = g.timer_actor {
+                    g.actors[t].passive_busy = false;
+                }
             }
             "timer.unpark" => {
                 g.timer_parked = false;
@@ -887,7 +991,7 @@ impl may::verif::Controller for Ctrl {
             };
             g.notes.push((who, kind, a, b));
         }
-        if !matches!(kind, "timer.idle" | "timer.park" | "timer.unpark" | "timer.thread" | "timer.added" | "sb.new") {
+        if !matches!(kind, "timer.idle" | "timer.park" | "timer.unpark" | "timer.thread" | "timer.added" | "sb.new" | "sel.idle") {
             g.change += 1;
         }
         self.cv.notify_all();
@@ -902,6 +1006,7 @@ impl may::verif::Controller for Ctrl {
             }
             g.timer_read_gen = g.tick_gen;
             g.read_add_gen = g.add_gen;
+            g.timer_last_now = g.vclock.unwrap_or(0);
         }
         g.vclock
     }
